@@ -133,11 +133,56 @@ def anf_stage(run, srcs, wits, broken):
     return st
 
 
+def dce_stage(run, srcs, wits, broken):
+    """has_effects / stmt_has_effects (C09/Dce.v, about which effect_free_*_is_unobservable are proved) against the real
+    expr_has_side_effects / stmt_has_side_effects, on every expression and statement of every emitted function"""
+    import go2coq
+
+    st = {"programs": 0, "classified_nodes": 0, "effect_free_nodes": 0, "agreeing_programs": 0}
+    root, paths = semrun.write_programs("c09dce", srcs)
+    corpus = sorted(glob.glob(os.path.join(vlib.REPO, "crates/compiler/src/tests/pipeline/*/main.gom")))
+    paths = paths + corpus
+    srcs = list(srcs) + [open(p, encoding="utf-8").read() for p in corpus]
+    res = vlib.run_harness("compile", [{"path": p, "dumps": ["go_dbg", "effects"], "timeout_ms": 20000} for p in paths], shards=vlib.NCPU)
+    defs, ix = [], []
+    for i, r in enumerate(res):
+        if not r.get("ok"):
+            continue
+        bits = r["dumps"].get("effects", "")
+        try:
+            f = go2coq.file(rustdbg.parse(r["dumps"]["go_dbg"]))
+        except (go2coq.Conv, KeyError, AssertionError) as e:
+            broken.append(Broken("correspondence", "C09 dce model: the Go AST has a shape the translator cannot read: %r" % (e,)))
+            continue
+        st["programs"] += 1
+        st["classified_nodes"] += len(bits)
+        st["effect_free_nodes"] += bits.count("0")
+        defs.append("(first_diff (trace_file %s) [%s] 0)" % (f, "; ".join("true" if c == "1" else "false" for c in bits)))
+        ix.append(i)
+    per = 8
+    hdr = "From Goml Require Import Common.Base Sem.GoAst C09.Dce.\nOpen Scope N_scope.\n"
+    texts = [hdr + "Eval vm_compute in (map (fun o : option N => match o with Some i => i + 1 | None => 0 end) [%s]).\n" % ";\n".join(defs[k : k + per]) for k in range(0, len(defs), per)]
+    flat = []
+    for o in vlib.coq_eval_many("c09dce", texts, timeout=1500):
+        flat += vlib.parse_nat_list(o)
+    if len(flat) != len(ix):
+        raise Broken("coq-output", "C09 dce: %d results for %d programs" % (len(flat), len(ix)))
+    bad = [(i, d) for i, d in zip(ix, flat) if d]
+    st["agreeing_programs"] = len(ix) - len(bad)
+    if bad:
+        i, d = bad[0]
+        broken.append(Broken("correspondence", "C09/Dce.v no longer classifies effects as go/dce.rs does (node %d in pre-order of the emitted functions of: %s); theorems effect_free_expression_is_unobservable / effect_free_statement_is_unobservable are about the model" % (d - 1, srcs[i][-600:])))
+    if st["programs"] and st["effect_free_nodes"] * 10 < st["classified_nodes"]:
+        broken.append(Broken("generator", "C09 dce: fewer than a tenth of the classified nodes are effect-free"))
+    shutil.rmtree(root, ignore_errors=True)
+    return st
+
+
 def check(run):
     run.level = "translation_validation"
     broken = []
     try:
-        vlib.proof_stage(run, "C09", ["C01/Properties.v", "C09/Properties.v", "C09/Eqb.v", "C09/EqbSound.v"], pins="C09")
+        vlib.proof_stage(run, "C09", ["C01/Properties.v", "C09/Properties.v", "C09/Eqb.v", "C09/EqbSound.v", "C09/Dce.v", "C09/DceProofs.v"], pins="C09")
     except Broken as b:
         broken.append(b)
     wits, stats, cstats, srcs = [], {}, None, []
@@ -149,6 +194,11 @@ def check(run):
     astats = {}
     try:
         astats = anf_stage(run, srcs, wits, broken)
+    except Broken as b:
+        broken.append(b)
+    dstats = {}
+    try:
+        dstats = dce_stage(run, srcs, wits, broken)
     except Broken as b:
         broken.append(b)
     # ---- the order as WRITTEN: an oracle computed from the source text (the typed tree is already elaborated) ----------
@@ -186,7 +236,7 @@ def check(run):
         "and a systematic matrix of 9 kinds of unit-typed effect expressions x 10 statement positions (last/middle of a while body, if/else/match branches, last in a function or closure body, let _ =); failing operations (division by zero, out-of-range vec_get) at an 8% rate; the order and multiplicity of output lines and the point of failure of the real Go AST (after ANF, Go generation and DCE) must equal those of the typed source program "
         "under the Coq semantics. The right operand of && / || is kept effect-free (known finding). distinct_nontrivial = agreeing completed runs"
     )
-    run.cov["correspondence"] = {"generated": stats, "anf_model": astats, "written_order": wstats}
+    run.cov["correspondence"] = {"generated": stats, "anf_model": astats, "written_order": wstats, "dce_classification": dstats}
     run.cov["rule"] += (
         ". Written order: programs whose operands (call and method arguments, receivers, binary operands, tuple/array/constructor/struct-literal components, nested) are printing probes; the expected output is computed from the "
         "source TEXT (left to right as written) and the emitted Go must print exactly that (struct literals are written in declaration order: out-of-order fields are a known finding)"
@@ -194,6 +244,10 @@ def check(run):
     run.cov["rule"] += (
         ". ANF stage: for every function of every generated and corpus program the Coq model of anf.rs (C09/Anf.v) is run on the real lifted body with the real start value of the temporary counter "
         "and must equal, node for node and name for name, the A-normal form the compiler built; independently the operation trace (C09/Order.v) of the real A-normal form must equal that of the lifted source"
+    )
+    run.cov["rule"] += (
+        ". DCE stage: the Coq functions has_effects / stmt_has_effects (C09/Dce.v), about which it is proved that what they call effect-free prints nothing, changes no existing heap cell and cannot fail on an index or a division, "
+        "are compared with the real expr_has_side_effects / stmt_has_side_effects (reached through the goml_verif hook of go/dce.rs) on every expression and statement of every emitted function"
     )
     run.cov["open_obligations"] = ["the theorem covers order, multiplicity and branch placement of operations under A-normalisation; value flow through the temporaries and the later stages (Go generation, DCE) are covered by translation validation only", "interleavings of `go` are outside the model (one schedule: the spawned call runs at the spawn point)"]
     run.assumptions = ["Sem/Src.v: left-to-right, exactly-once, short-circuit source semantics; Sem/GoSem.v: Go statement semantics"]
